@@ -548,7 +548,9 @@ func (c *Ctx) ruleQ3Q4(fns []*ssa.Function) {
 				}
 			})
 			cons := fk + "→fetch#empty-is-failure"
-			if len(tests) == 0 {
+			if len(tests) == 0 && c.emptyFetchHandledElsewhere(f, fns, call, d) {
+				c.ok("Q3", cons, call.Pos(), "the emptiness of the fetched log is tested by a function given the log (or by every caller of this fetch wrapper), and an empty result makes the fetch step fail")
+			} else if len(tests) == 0 {
 				c.bad("Q3", cons, call.Pos(), "the fetch step records success without looking at what was fetched. The fetcher has no error result (DF7): a request cancelled in the middle of a fetch, or an unavailable block, yields an EMPTY log and a nil error, the hash is then marked fetched and every later request for the same head is skipped")
 			} else {
 				// following the empty edge, a non-failing return must be unreachable; and every success return passes a test
@@ -849,26 +851,32 @@ func (c *Ctx) ruleL2(fns []*ssa.Function) {
 				if call.Common().StaticCallee() != f || call.Value() == nil {
 					return
 				}
-				dr := derived([]ssa.Value{call.Value()}, flowOpts{})
+				dr := derived([]ssa.Value{call.Value()}, flowOpts{intoClosures: true})
 				queued := false
-				eachCall(g, func(q ssa.CallInstruction) {
-					h := q.Common().StaticCallee()
-					if h == nil {
-						return
-					}
-					enq := c.reachesStatic(h, func(a ssa.CallInstruction) bool {
-						m := a.Common().StaticCallee()
-						return m != nil && m.Name() == "Add" && m.Signature.Recv() != nil && strings.Contains(typeStr(m.Signature.Recv().Type()), "processQueue")
-					}, 0)
-					if !enq {
-						return
-					}
-					for _, a := range q.Common().Args {
-						if dr[a] {
-							queued = true
+				var scope []*ssa.Function
+				for _, gc := range withClosures(topLevel(g)) {
+					scope = append(scope, gc)
+				}
+				for _, gc := range scope {
+					eachCall(gc, func(q ssa.CallInstruction) {
+						h := q.Common().StaticCallee()
+						if h == nil {
+							return
 						}
-					}
-				})
+						enq := c.reachesStatic(h, func(a ssa.CallInstruction) bool {
+							m := a.Common().StaticCallee()
+							return m != nil && m.Name() == "Add" && m.Signature.Recv() != nil && strings.Contains(typeStr(m.Signature.Recv().Type()), "processQueue")
+						}, 0)
+						if !enq {
+							return
+						}
+						for _, a := range q.Common().Args {
+							if dr[a] {
+								queued = true
+							}
+						}
+					})
+				}
 				cons := fnKey(g) + "→" + f.Name() + "#queue-links"
 				if queued {
 					c.ok("L2", cons, call.Pos(), "the returned links are handed to the queue")
@@ -879,6 +887,151 @@ func (c *Ctx) ruleL2(fns []*ssa.Function) {
 		}
 	}
 	c.floor("L2", "fetch steps (NewFromEntryHash in the replicator)", n, 1)
+}
+
+// emptyTestsIn: the tests "this log is empty" in g on values of d, with the successor taken
+// when it is empty; ok when every such edge cannot reach a successful return and every
+// successful return of g passes one of the tests.
+func (c *Ctx) emptyIsFailureIn(g *ssa.Function, d map[ssa.Value]bool) bool {
+	type et struct {
+		iff  *ssa.If
+		edge int
+	}
+	var tests []et
+	eachInstr(g, func(in ssa.Instruction) {
+		bo, ok := in.(*ssa.BinOp)
+		if !ok {
+			return
+		}
+		var other ssa.Value
+		lenFirst := false
+		for _, pr := range [][2]ssa.Value{{bo.X, bo.Y}, {bo.Y, bo.X}} {
+			cl, ok := pr[0].(*ssa.Call)
+			if !ok {
+				continue
+			}
+			isLen := methodName(cl) == "Len" && cl.Common().IsInvoke() && d[cl.Common().Value]
+			if b, ok := cl.Call.Value.(*ssa.Builtin); ok && b.Name() == "len" && len(cl.Call.Args) == 1 && d[cl.Call.Args[0]] {
+				isLen = true
+			}
+			if isLen {
+				other = pr[1]
+				lenFirst = pr[0] == bo.X
+			}
+		}
+		if other == nil {
+			return
+		}
+		z, ok := constInt(other)
+		if !ok {
+			return
+		}
+		edge := -1
+		switch {
+		case bo.Op == token.EQL && z == 0:
+			edge = 0
+		case bo.Op == token.NEQ && z == 0:
+			edge = 1
+		case lenFirst && bo.Op == token.GTR && z == 0, lenFirst && bo.Op == token.GEQ && z == 1:
+			edge = 1
+		case lenFirst && bo.Op == token.LSS && z == 1, lenFirst && bo.Op == token.LEQ && z == 0:
+			edge = 0
+		}
+		if edge < 0 {
+			return
+		}
+		for _, r := range *bo.Referrers() {
+			if iff, ok := r.(*ssa.If); ok {
+				tests = append(tests, et{iff, edge})
+			}
+		}
+	})
+	if len(tests) == 0 {
+		return false
+	}
+	for _, t := range tests {
+		sc := t.iff.Block().Succs[t.edge]
+		if hit, _ := findPath(g, atBlock(sc), nil, successReturn, nil); hit != nil && branchCovers(sc, hit.Block()) {
+			return false
+		}
+	}
+	isTest := func(in ssa.Instruction) bool {
+		for _, t := range tests {
+			if in == ssa.Instruction(t.iff) {
+				return true
+			}
+		}
+		return false
+	}
+	hit, _ := findPath(g, entry, isTest, successReturn, nil)
+	return hit == nil
+}
+
+// emptyCheckedIn: g tests the emptiness of a log of d itself, or hands it to a same-package
+// function that does and leaves on that function's error.
+func (c *Ctx) emptyCheckedIn(g *ssa.Function, d map[ssa.Value]bool) bool {
+	if c.emptyIsFailureIn(g, d) {
+		return true
+	}
+	found := false
+	eachCall(g, func(call ssa.CallInstruction) {
+		if found {
+			return
+		}
+		if _, isGo := call.(*ssa.Go); isGo {
+			return
+		}
+		h := call.Common().StaticCallee()
+		if h == nil || h.Blocks == nil || h.Pkg != g.Pkg {
+			return
+		}
+		var ps []ssa.Value
+		for i, a := range call.Common().Args {
+			if d[a] && i < len(h.Params) {
+				ps = append(ps, h.Params[i])
+			}
+		}
+		if len(ps) == 0 {
+			return
+		}
+		ev := errResult(call)
+		if ev == nil || !(returnedDirectly(ev) || len(errTests(ev)) > 0) {
+			return
+		}
+		if c.emptyIsFailureIn(h, derived(ps, flowOpts{throughCalls: true})) {
+			found = true
+		}
+	})
+	return found
+}
+
+// emptyFetchHandledElsewhere: the function that fetches hands the log to a checker, or only
+// returns it and every caller checks it.
+func (c *Ctx) emptyFetchHandledElsewhere(f *ssa.Function, fns []*ssa.Function, call ssa.CallInstruction, d map[ssa.Value]bool) bool {
+	if c.emptyCheckedIn(f, d) {
+		return true
+	}
+	byFn := c.fetchedLogsByFn(fns)
+	for _, v := range byFn[f] {
+		if v == call.Value() {
+			return false // worked on here, and not checked here
+		}
+	}
+	// attributed to callers: every one of them must check
+	sites, okAll := 0, true
+	for _, g := range fns {
+		for _, v := range byFn[g] {
+			vc, ok := v.(*ssa.Call)
+			if !ok || vc.Call.StaticCallee() != f {
+				continue
+			}
+			sites++
+			if !c.emptyCheckedIn(g, derived([]ssa.Value{v}, flowOpts{throughCalls: true})) {
+				okAll = false
+			}
+		}
+	}
+	return sites > 0 && okAll
 }
 
 // fetchedLogsByFn: where fetched logs are worked on. A log fetched by NewFromEntryHash is
